@@ -175,7 +175,8 @@ VGMFileDumper::VGMFileDumper(OPNFamily f, int index, void *first)
         std::memcpy(m_vgm_head.magic, "Vgm ", 4);
         m_vgm_head.version = 0x00000150;
         m_vgm_head.offset_loop = VGM_LOOP_START_BASE;
-        std::fseek(m_output, VGM_SONG_DATA_START, SEEK_SET);
+        if(m_output) // the file may be impossible to create: every writer tests the stream
+            std::fseek(m_output, VGM_SONG_DATA_START, SEEK_SET);
     }
     else
     {
@@ -185,7 +186,7 @@ VGMFileDumper::VGMFileDumper(OPNFamily f, int index, void *first)
 
 VGMFileDumper::~VGMFileDumper()
 {
-    if(m_chip_index > 0)
+    if(m_chip_index > 0 || !m_output)
         return;
 
     uint8_t out[1];
